@@ -26,11 +26,20 @@ must be finite and equal the two-sided limit, computed by the reference evaluato
 (model, infinite point x = 4) - `new` must still be non-finite there (untouched).  A regular-point value that is an integer multiple (2..6) of the original's
 for an expression with >= 2 singular factors is reported as double-counted; so is a value m x limit (m = 2..6) at the ONLY singular point
 of an expression when the expression is multiplied by the same m at a regular input (one point counted m times).  Sub-kind of a
-singular-point failure: several-singularities when the expression has >= 2 distinct removable points (literal or parameter-valued: the
-territory of the listed sum-of-Conditionals defect); else, when its only removable point is the value of a parameter, the same input is
+singular-point failure: several-singularities when the expression has >= 2 distinct removable points (literal or parameter-valued);
+else, when its only removable point is the value of a parameter, the same input is
 tried on the literal twin (the value written in place of the parameter inside that expression: sin(v - 0.13)/(v - 0.13)): twin not
 repaired either -> one-singularity (the numeric-point behaviour), twin repaired -> parameter-valued-point (wrong-limit additionally
-:abs-of-state-at-negative-point when the expression has abs(..state..) and the parameter's value is negative); else one-singularity.  Non-trivial: k >= 1; distinct by sha1(text,
+:abs-of-state-at-negative-point when the expression has abs(..state..) and the parameter's value is negative); else one-singularity.
+singular-point-not-removed:{one-singularity|several-singularities} then gets the listed MECHANISM that explains it, decided from the model
+text and the regular-input behaviour: :sum-of-conditionals (the expression is multiplied by m >= 2 at a regular input: >= 2 Conditionals are
+summed and each singular point evaluates the others' raw expression; for several points also when no regular input tells because the
+expression is 0 there - only m = 1 is evidence against), else :float-coefficient-form (the only denominator with this root is
+1 - exp(-0.1*(x - a)): sympy returns the root as a Float and the limit as oo), else :not-a-finite-set (the expression has a
+ContinuousConditional that mentions the state, or a denominator in the state besides the planted ones: sympy.singularities returns a Union /
+Intersection and gotranx skips the expression), else :power-underflows-at-the-input (a power / exp of the expression is 0 or beyond 1e+-300
+there: the replacement is written with the reciprocal, inf/inf), else NO suffix: a plain sin / expm1 / (x-a)/(x-a) factor that is left in
+place without any of these is not a listed finding.  Non-trivial: k >= 1; distinct by sha1(text,
 point)."""
 
 
@@ -208,13 +217,8 @@ def check(case):
         per_assign.setdefault(name, set()).add((s, a))
     forms = singular_forms(ref)
 
-    def regular_multiple(name):
-        """m when `name` is multiplied by the integer m (1..6) at a regular input, else None"""
-        return next((m_ for m_ in range(1, 7) if multiplied_everywhere(name, m_)), None)
-
-    def multiplied_everywhere(name, mlt):
-        """is `name` multiplied by mlt at a regular input as well?  (the listed sum-of-Conditionals defect: one Conditional per entry of
-        sympy.singularities, which spells one point twice - `kf` and `1.0*kf` - when a factor has a float coefficient)"""
+    def regular_values(name):
+        """(original, new) value of `name` at a regular input where the original is finite and not 0; None when there is no such input"""
         cands = [cm.restrict_point(rp, ref) for rp in c["points"]]
         # a stored failure carries only the singular input: also try it with the states moved off the singular points
         cands += [{"t": rp["t"], "states": {k: v + d for k, v in rp["states"].items()}, "params": rp["params"]} for rp in cands[:2] for d in (0.37, -0.61, 1.3)]
@@ -226,8 +230,21 @@ def check(case):
             except be.Stage:
                 continue
             if math.isfinite(o_v) and abs(o_v) > 1e-9:
-                return cm.close(n_v, mlt * o_v, 1e-9, 1e-12)
-        return False
+                return o_v, n_v
+        return None
+
+    def regular_multiple(name):
+        """m when `name` is multiplied by the integer m (1..6) at a regular input, 0 when no regular input tells (the expression is 0 or
+        undefined at all of them), None when it is changed in another way"""
+        ov = regular_values(name)
+        if ov is None:
+            return 0
+        return next((m_ for m_ in range(1, 7) if cm.close(ov[1], m_ * ov[0], 1e-9, 1e-12)), None)
+
+    def multiplied_everywhere(name, mlt):
+        """is `name` multiplied by mlt at a regular input as well?  (the listed sum-of-Conditionals defect: one Conditional per entry of
+        sympy.singularities, which spells one point twice - `kf` and `1.0*kf` - when a factor has a float coefficient)"""
+        return regular_multiple(name) == mlt
 
     want_mode = c.get("mode")
     # regular points -------------------------------------------------------------------------------------
@@ -334,8 +351,10 @@ def check(case):
                 mreg = regular_multiple(name)
                 st_near = dict(pt["states"])
                 st_near[s] = av + 1e-6
-                if mreg is not None and mreg >= 2:
-                    why = ("sum-of-conditionals", f"{name} is multiplied by {mreg} at regular inputs: {mreg} Conditionals are summed and at a singular point the others contribute the raw expression")
+                if (mreg is not None and mreg >= 2) or (mreg == 0 and nsing >= 2):
+                    # >= 2 Conditionals are summed (seen at a regular input; for an expression with several points also assumed when no regular
+                    # input tells, e.g. the expression is 0 there: only m = 1 is evidence against)
+                    why = ("sum-of-conditionals", f"{name} is multiplied by {mreg if mreg else 'an undeterminable factor'} at regular inputs: the Conditionals are summed and at a singular point the others contribute the raw expression")
                 elif set(forms.get((s, a, name), ["plain"])) == {"float"}:
                     why = ("float-coefficient-form", "the only denominator with this root applies a float coefficient to the state (1 - exp(-0.1*(x - a))): sympy returns the root as a Float and its limit as oo")
                 elif finite_set_doubtful(ref, name, s, planted):
